@@ -135,3 +135,12 @@ claim("C16",
       "points, decrease with height to 0.5 % of a, closeness to and continuity with the rotating sphere for f <= 1e-4 and f = 0, "
       "and the shipped planets.",
       "TLA+ Ellipsoid (exact rationals) + TLC + relational replay", "DESIGN.md section 5, C16")
+claim("C20",
+      "SyntheticSensors.tla models a trajectory q_k = q_0 r^k observed by ideal sensors with the integer invariants ConstantRate, "
+      "RigidReadings and BackToReference checked by TLC over starts x steps x references; the harness builds the exact "
+      "trajectories (grid and realistic small-step ones via the bigint mirror, lengths 10..200, 10..400 Hz), feeds them to Sensors "
+      "with zero noise and requires accelerometers / magnetometers = R_k^T ref, rotations / quaternions / angular positions of "
+      "the same attitudes, gyroscopes - bias = the generator's first-order rate (radians and degrees), integration back to the "
+      "trajectory, requested = reported = applied noise levels (zero, default, explicit), and the same consistency on the "
+      "random-trajectory route.",
+      "TLA+ SyntheticSensors + TLC + exact replay (bigint mirror)", "DESIGN.md section 5, C20")
